@@ -131,6 +131,8 @@ def facts_for(tag, rhash=None, verbose=True):
             raise BuildFailure(tag, "driver produced no fact files for tag %s\n%s" % (tag, pr.stdout[-3000:]))
         with open(okfile, "w") as fh:
             fh.write(rhash)
+        with open(os.path.join(os.path.dirname(outdir), ".repo"), "w") as fh:
+            fh.write(REPO)
         _prune(rhash)
         return files
     finally:
@@ -139,13 +141,21 @@ def facts_for(tag, rhash=None, verbose=True):
 
 
 def _prune(keep):
-    """keep the fact sets of the 3 most recent trees only"""
+    """keep the fact sets of the 4 most recent trees per repository path (scratch copies are pruned separately from /repo)"""
     base = os.path.join(CACHE, "facts")
+    groups = {}
     try:
-        ds = [(os.path.getmtime(os.path.join(base, d)), d) for d in os.listdir(base)]
+        for d in os.listdir(base):
+            full = os.path.join(base, d)
+            try:
+                rp = open(os.path.join(full, ".repo")).read().strip()
+            except OSError:
+                rp = "?"
+            groups.setdefault(rp, []).append((os.path.getmtime(full), d))
     except OSError:
         return
-    ds.sort(reverse=True)
-    for _, d in ds[10:]:
-        if d != keep:
-            shutil.rmtree(os.path.join(base, d), ignore_errors=True)
+    for rp, ds in groups.items():
+        ds.sort(reverse=True)
+        for _, d in ds[4:]:
+            if d != keep:
+                shutil.rmtree(os.path.join(base, d), ignore_errors=True)
